@@ -26,11 +26,42 @@ func skelCall(f *file, e ast.Expr) string {
 	if !ok {
 		return ""
 	}
+	if fl, ok := ce.Fun.(*ast.FuncLit); ok {
+		return "func {" + skeleton(f, fl.Body.List) + "}()"
+	}
 	fn := f.src(ce.Fun)
 	if strings.HasPrefix(fn, "glog.") {
 		return ""
 	}
-	return fn + "()"
+	// arguments as written; a function literal among them is code of this function too
+	var args []string
+	for _, a := range ce.Args {
+		if fl, ok := a.(*ast.FuncLit); ok {
+			args = append(args, "func {"+skeleton(f, fl.Body.List)+"}")
+		} else {
+			args = append(args, strings.Join(strings.Fields(f.src(a)), " "))
+		}
+	}
+	return fn + "(" + strings.Join(args, ", ") + ")"
+}
+
+// skelExpr renders an expression that is returned: calls by name (function literals expanded),
+// anything else as written.
+func skelExpr(f *file, e ast.Expr) string {
+	if c := skelCall(f, e); c != "" {
+		if ce := e.(*ast.CallExpr); len(ce.Args) > 0 {
+			hasLit := false
+			for _, a := range ce.Args {
+				if _, ok := a.(*ast.FuncLit); ok {
+					hasLit = true
+				}
+			}
+			if hasLit {
+				return c
+			}
+		}
+	}
+	return strings.Join(strings.Fields(f.src(e)), " ")
 }
 
 func skelStmt(f *file, st ast.Stmt) string {
@@ -59,7 +90,7 @@ func skelStmt(f *file, st ast.Stmt) string {
 	case *ast.ReturnStmt:
 		var rs []string
 		for _, r := range x.Results {
-			rs = append(rs, f.src(r))
+			rs = append(rs, skelExpr(f, r))
 		}
 		return "return " + strings.Join(rs, ", ")
 	case *ast.BranchStmt:
@@ -70,7 +101,27 @@ func skelStmt(f *file, st ast.Stmt) string {
 		}
 		return "go " + f.src(x.Call.Fun) + "()"
 	case *ast.DeferStmt:
-		return "defer " + f.src(x.Call.Fun) + "()"
+		if c := skelCall(f, x.Call); c != "" {
+			return "defer " + c
+		}
+		return ""
+	case *ast.LabeledStmt:
+		return x.Label.Name + ": " + skelStmt(f, x.Stmt)
+	case *ast.TypeSwitchStmt:
+		var cs []string
+		for _, c := range x.Body.List {
+			cc := c.(*ast.CaseClause)
+			var es []string
+			for _, e := range cc.List {
+				es = append(es, f.src(e))
+			}
+			h := "default"
+			if len(es) > 0 {
+				h = strings.Join(es, ", ")
+			}
+			cs = append(cs, "case "+h+": {"+skeleton(f, cc.Body)+"}")
+		}
+		return "switch " + strings.Join(strings.Fields(f.src(x.Assign)), " ") + " {" + strings.Join(cs, " ") + "}"
 	case *ast.SelectStmt:
 		var cs []string
 		for _, c := range x.Body.List {
@@ -90,7 +141,11 @@ func skelStmt(f *file, st ast.Stmt) string {
 			for _, e := range cc.List {
 				es = append(es, f.src(e))
 			}
-			cs = append(cs, "case "+strings.Join(es, ", ")+": {"+skeleton(f, cc.Body)+"}")
+			h := "default"
+			if len(es) > 0 {
+				h = strings.Join(es, ", ")
+			}
+			cs = append(cs, "case "+h+": {"+skeleton(f, cc.Body)+"}")
 		}
 		return "switch " + srcOrE(f, x.Tag) + " {" + strings.Join(cs, " ") + "}"
 	case *ast.BlockStmt:
@@ -107,18 +162,22 @@ func skelStmt(f *file, st ast.Stmt) string {
 				cs = append(cs, c)
 			}
 		}
-		if len(cs) == 0 {
-			if len(x.Lhs) == 1 {
-				if _, ok := x.Lhs[0].(*ast.IndexExpr); ok {
-					return f.src(x.Lhs[0]) + " ="
-				}
+		// an update of a field, a map entry or a slice element is state the function leaves behind:
+		// written out in full; an assignment to a local variable shows only the calls it makes
+		for _, l := range x.Lhs {
+			switch l.(type) {
+			case *ast.SelectorExpr, *ast.IndexExpr, *ast.StarExpr:
+				return strings.Join(strings.Fields(f.src(x)), " ")
 			}
-			return ""
 		}
 		return strings.Join(cs, ", ")
 	case *ast.SendStmt:
 		return f.src(x.Chan) + " <-"
 	case *ast.IncDecStmt:
+		switch x.X.(type) {
+		case *ast.SelectorExpr, *ast.IndexExpr:
+			return f.src(x)
+		}
 		return ""
 	}
 	return ""
